@@ -3,6 +3,7 @@ package sym
 import (
 	"math"
 	"math/rand"
+	"strconv"
 	"testing"
 )
 
@@ -98,6 +99,56 @@ func TestBVFloatEncodings(t *testing.T) {
 		}
 		if c.bvFLt(c.Const(64, v), c.Const(64, w)).Val != b2u(f < g) || c.bvFLe(c.Const(64, v), c.Const(64, w)).Val != b2u(f <= g) || c.bvFEq(c.Const(64, v), c.Const(64, w)).Val != b2u(f == g) {
 			t.Fatalf("compare %v %v", f, g)
+		}
+	}
+}
+
+func TestFFixedScaled(t *testing.T) {
+	c := NewCtx()
+	vs := interesting64()
+	r := rand.New(rand.NewSource(7))
+	for i := 0; i < 400000; i++ {
+		switch i % 4 {
+		case 0: // hundredths and their neighbours
+			f := float64(r.Intn(4000001)-2000000) / 100
+			vs = append(vs, math.Float64bits(f), math.Float64bits(f)+1, math.Float64bits(f)-1)
+		case 1: // exact ties at the third decimal where representable (k/8, k/1024)
+			vs = append(vs, math.Float64bits(float64(r.Intn(1<<20)-1<<19)/8), math.Float64bits(float64(r.Intn(1<<24))/1024))
+		case 2: // small magnitudes
+			vs = append(vs, math.Float64bits(r.Float64()*math.Pow(10, float64(r.Intn(12)-8)))|uint64(r.Intn(2))<<63)
+		case 3:
+			vs = append(vs, math.Float64bits(float64(r.Int63())/float64(int64(1)<<uint(r.Intn(62)))))
+		}
+	}
+	for _, v := range vs {
+		f := math.Float64frombits(v)
+		for pi, scale := range []uint64{1, 10, 100, 1000} {
+			ok, neg, q := c.FFixedScaled(c.Const(64, v), scale)
+			if ok.Op != OpConst || q.Op != OpConst {
+				t.Fatalf("not folded for %#x", v)
+			}
+			if !ok.isTrue() {
+				if !(math.IsNaN(f) || math.IsInf(f, 0) || math.Abs(f)*float64(scale) >= float64(uint64(1)<<61)) {
+					t.Fatalf("model rejects %v (scale %d)", f, scale)
+				}
+				continue
+			}
+			s := ""
+			if neg.isTrue() {
+				s = "-"
+			}
+			ip, fp := q.Val/scale, q.Val%scale
+			s += strconv.FormatUint(ip, 10)
+			if pi > 0 {
+				fs := strconv.FormatUint(fp, 10)
+				for len(fs) < pi {
+					fs = "0" + fs
+				}
+				s += "." + fs
+			}
+			if want := strconv.FormatFloat(f, 'f', pi, 64); s != want {
+				t.Fatalf("%%.%df of %v (%#x): model %q, strconv %q", pi, f, v, s, want)
+			}
 		}
 	}
 }
